@@ -21,6 +21,7 @@ func init() {
 			ruleL1(r, le)
 			ruleW1(r)
 			ruleW4(r, le, "W4")
+			r.borrow("C01", func() { ruleFlushRendezvous(r, "R9") }) // an abandoned Flush must not wedge the flush loop
 			ruleW2(r)
 			ruleS1(r)
 			ruleE1(r)
